@@ -203,9 +203,9 @@ def part_skin_errors(p, k, vb, lim, nonneg):
 
 
 def held_triangles(st):
-    """rotation-normalised triangles held by the partitions of a dump, None when not readable
-    (strips, or mapped triangles outside the vertex map)"""
-    out = set()
+    """multiset of the rotation-normalised triangles held by the partitions of a dump, None when
+    not readable (strips, or mapped triangles outside the vertex map)"""
+    out = Counter()
     for p in st["parts"]:
         if p["tt"]:
             out.update(rot(t) for t in p["tt"])
@@ -215,7 +215,7 @@ def held_triangles(st):
             for t in p["tris"]:
                 if any(c >= len(p["vm"]) for c in t):
                     return None
-                out.add(rot(tuple(p["vm"][c] for c in t)))
+                out[rot(tuple(p["vm"][c] for c in t))] += 1
         else:
             out.update(rot(t) for t in p["tris"])
     return out
@@ -260,13 +260,15 @@ def step_errors(ver, tris, nv, bones, nonneg, pre, op, post):
             # (decidable here when the shape has no duplicate triangle and the old partitions'
             # true triangles can be read off the dump); otherwise the rebuilt triParts says which
             held = held_triangles(pre)
-            if held is not None and len(set(rt)) == n and len(post["tp"]) == n:
-                assigned = [t for t in rt if t in held]
-                for i in range(n):
-                    if (post["tp"][i] >= 0) != (rt[i] in held):
-                        e.append("triangle %d: %s by the old partitions but rebuilt as %s" % (
-                            i, "held" if rt[i] in held else "not held", "assigned" if post["tp"][i] >= 0 else "unassigned"))
-                        break
+            if held is not None and len(post["tp"]) == n:
+                # of k copies of a triangle in the shape and h copies held by the partitions, min(k, h) are assigned
+                assigned = list((Counter(rt) & held).elements())
+                if len(set(rt)) == n:
+                    for i in range(n):
+                        if (post["tp"][i] >= 0) != (held[rt[i]] > 0):
+                            e.append("triangle %d: %s by the old partitions but rebuilt as %s" % (
+                                i, "held" if held[rt[i]] > 0 else "not held", "assigned" if post["tp"][i] >= 0 else "unassigned"))
+                            break
             else:
                 assigned = [rt[i] for i in range(min(n, len(post["tp"]))) if post["tp"][i] >= 0]
         e += cover_errors(post, rt, assigned)
@@ -334,6 +336,18 @@ def step_errors(ver, tris, nv, bones, nonneg, pre, op, post):
                     break
                 if not held and pi >= 0 and len(pre["tp"]) != n:
                     e.append("GetShapePartitions: unassigned triangle %d reported in partition %d instead of -1" % (i, pi))
+                    break
+        if len(g[2]) == n and len(pre["tp"]) != n:
+            # regenerated assignment, duplicates included: per partition and triangle, as many shape copies are
+            # reported as the partition holds (when the partitions hold no more copies than the shape has)
+            shape_cnt = Counter(rot(t) for t in tris)
+            held_cnt = Counter(rot(t) for p in post["parts"] for t in p["tt"])
+            for j, p in enumerate(post["parts"]):
+                want = Counter(rot(t) for t in p["tt"])
+                got = Counter(rot(tris[i]) for i in range(n) if g[2][i] == j)
+                bad = [t for t in want if held_cnt[t] <= shape_cnt[t] and got[t] != want[t]]
+                if bad:
+                    e.append("GetShapePartitions: partition %d holds %d copies of triangle %s but %d shape triangles are reported in it" % (j, want[bad[0]], bad[0], got[bad[0]]))
                     break
     elif k == "D":
         if len(post["parts"]) != 1 or post["np"] != 1:
